@@ -45,6 +45,7 @@ inductive WKind
   | setitem      -- `res[c] = v`                       (DataFrame.__setitem__)
   | delitem      -- `del res[c]`                       (DataFrame.__delitem__)
   | locset       -- `res.loc[mask, c] = v`             (_LocIndexer.__setitem__)
+  | setcol       -- `res[c] = v` for a column `c` the frame already has (DataFrame.__setitem__; columns unchanged)
   | resetIndex   -- `res.reset_index(drop=True, inplace=True)`
   | setColumns   -- `s.columns = [...]`                (NDFrame.__setattr__)
 deriving DecidableEq, Repr
@@ -524,7 +525,7 @@ def mergeCols (l r onA onB : List Col) : List Col :=
 
 /-- py: the loop body of `_natural_join_step` for one common non-key column -/
 def coalesceOne (res : H) (c : Col) : B H := do
-  let res ← write .locset res c
+  let res ← write .setcol res c
   alloc "res.drop(c + \"_tmp_right_col\", axis=1, inplace=False)"
     (res.f.cols.filter (· != c ++ "_tmp_right_col")) res.f.nrows
 
@@ -544,11 +545,10 @@ res = self.pd.merge(left=left, right=right, ..., suffixes=("", "_tmp_right_col")
 self.drop_indices(res)                                          # in place (local)
 if scratch_col is not None:
     del res[scratch_col]                                        # in place (local)
-on_a_set = set(op.on_a)
 for c in common_cols:                                           # set iteration: ord
-    if c not in on_a_set:
+    if (c + "_tmp_right_col") in res.columns:                   # present unless c is a key paired with itself
         is_null = res[c].isnull()
-        res.loc[is_null, c] = res.loc[is_null, c + "_tmp_right_col"]                # in place (local)
+        res[c] = res[c].where(~is_null, res[c + "_tmp_right_col"])                  # in place (local), c present
         res = res.drop(c + "_tmp_right_col", axis=1, inplace=False)                 # alloc
 self.drop_indices(res)                                          # in place (local)
 return res
@@ -568,7 +568,8 @@ def planJoin (ord : Ord) (op : JoinOp) (left right : H) : B H := do
     let res ← alloc "pd.merge(left, right, ...)" (mergeCols left.f.cols right.f.cols onA onB) op.rows
     let res ← dropIndices res
     let res ← (if noKeys then write .delitem res scratch else pure res)
-    let res ← foldH (ord (common.filter (· ∉ op.onA))) res coalesceOne
+    let sameKey := fun c => (onA.zip onB).any fun ab => ab.1 == c && ab.2 == c
+    let res ← foldH (ord (common.filter (fun c => !sameKey c))) res coalesceOne
     dropIndices res
 
 /--
